@@ -102,6 +102,18 @@ Packet makePacket(const PktDesc& d)
             default: p.setPayload(Payload(PayloadType(static_cast<ASAM::CMP::CmpHeader::MessageType>(d.msgType), d.ptype), data, n));
         }
     }
+    else if (d.kind == K_ETH && d.viaCopy && n >= 6 && wire::get16(data + 4) == n - 6)
+    {
+        // the in-place editing idiom of the library's own example: the packet first gets a LONGER Ethernet payload, which is
+        // then edited through the reference from getPayload() (setData with the final, shorter data, then the flags)
+        ASAM::CMP::EthernetPayload e;
+        std::vector<uint8_t> longer(n - 6 + 1 + (d.ts % 300), 0xAB);
+        e.setData(longer.data(), static_cast<uint16_t>(std::min<size_t>(longer.size(), 65529)));
+        p.setPayload(e);
+        auto& ep = static_cast<ASAM::CMP::EthernetPayload&>(p.getPayload());
+        ep.setData(data + 6, static_cast<uint16_t>(n - 6));
+        ep.setFlags(wire::get16(data));
+    }
     else if (d.retype)
     {
         // two public calls that are each fine alone: setPayload with some type, later the type is changed in place
